@@ -153,11 +153,15 @@ func init() {
 		}
 		count := int(pk.SessionNodeCount(sessionCtx))
 		eligible := map[string]bool{}
-		listed, _ := nk.GetValidatorsByChain(sessionCtx, "0001")
-		for _, a := range listed {
-			v, ok := nk.GetValidator(ctx, a)
+		// eligibility from the node RECORDS (not from the by-chain index that session generation itself reads): staked
+		// for the chain at session start, and at the reference height present, not jailed and within the chain limit
+		for _, sv := range nk.GetAllValidators(sessionCtx) {
+			if sv.Status != sdk.Staked || !pc.NodeHasChain("0001", sv) {
+				continue
+			}
+			v, ok := nk.GetValidator(ctx, sv.Address)
 			if ok && !v.Jailed && pc.NodeHasChain("0001", v) && int64(len(v.Chains)) <= nk.MaxChains(sessionCtx) {
-				eligible[a.String()] = true
+				eligible[sv.Address.String()] = true
 			}
 		}
 		if pc.GlobalSessionCache == nil {
@@ -366,6 +370,13 @@ func init() {
 					c.Outcome("claim-path-session:" + v)
 				}
 			}
+			// from a state in which N1 is already jailed: leaving (begin-unstake while jailed, forced unstake), the end of
+			// the session, the end of the jail period and unjailing, in every order
+			jenv := env
+			jenv.UnstakingBlocks = 6 // a leaving node stays in the unstaking state for the rest of the explored history
+			jcfg := &chainCfg{Name: "sessions-after-jailing", Env: jenv, Prefix: []BlockSpec{{Absent: []string{"N1"}}, {Absent: []string{"N1"}}},
+				Menu: []BlockSpec{blk(tx("node_unstake", "N1")), {}, {TimeJump: 2}, blk(tx("node_unjail", "N1", "node", "N1", "as", "N1")), {Absent: []string{"N1"}}}, Depth: depth, Want: []string{"sessions", "sessions-claimpath"}}
+			chainExplore(c, jcfg)
 			st := chainExplore(c, cfg)
 			c.BoundDone = fmt.Sprintf("%d stub-keeper cases; %s", n, chainDone(c, cfg, st))
 			getPool().Close()
